@@ -50,7 +50,7 @@ func c12StartsByteString(t *c11Ty) bool {
 func c12Gen(r *vhRng) string {
 	q := &c12Q
 	if len(q.queue) == 0 && r.Chance(1, 6) { // a Go map destination (nil or made)
-		return c11MapGen(r, false)
+		return c11MapGen(r, 2)
 	}
 	if len(q.queue) == 0 {
 		t := c11GenTopTy(r)
